@@ -9,22 +9,6 @@ namespace C20
   | nil => simp
   | cons x xs ih => simp [ih]; omega
 
-theorem get_upd {α} [Inhabited α] (l : List α) (i k : Nat) (v : α) :
-    get (upd l i v) k = if k = i then v else get l k := by
-  induction l generalizing i k with
-  | nil =>
-    induction i generalizing k with
-    | zero => cases k <;> simp [upd, get]
-    | succ i ih => cases k with
-      | zero => simp [upd, get]
-      | succ k => simp [upd, get, ih]
-  | cons x xs ih =>
-    cases i with
-    | zero => cases k <;> simp [upd, get]
-    | succ i => cases k with
-      | zero => simp [upd, get]
-      | succ k => simp [upd, get, ih]
-
 /-- writing slot `i` changes a sum over the list exactly by the change of that slot -/
 theorem sum_upd {α} [Inhabited α] (f : α → Nat) (h0 : f default = 0) (l : List α) (i : Nat) (v : α) :
     sum ((upd l i v).map f) + f (get l i) = sum (l.map f) + f v := by
